@@ -580,12 +580,12 @@ fn add_rec(z: &mut Zone, n: Nm, d: Rd) {
 }
 
 fn gen_case(r: &mut Rng, index: u64) -> Gen {
-    let kind = match index % 8 {
-        0 => "clean",
-        1 | 2 | 3 => "hostile",
-        4 => "loops",
-        5 => "lame",
-        6 => "limits",
+    let kind = match index % 16 {
+        0 | 8 => "clean",
+        1 | 2 | 3 | 9 | 10 | 11 | 15 => "hostile",
+        4 | 12 => "loops",
+        5 | 13 => "lame",
+        6 | 14 => "limits",
         _ => "fan",
     };
     let clean = kind == "clean";
@@ -1350,7 +1350,7 @@ const CAP: usize = 4000;
 
 fn case(seed: u64, index: u64) -> CaseOut {
     let mut r = Rng::for_case(seed, index);
-    if index % 16 == 15 {
+    if index % 32 == 31 {
         return stub_case(seed, index, &mut r);
     }
     let g = gen_case(&mut r, index);
